@@ -741,10 +741,10 @@ func judgeInj(w *core.W, c *injCase) {
 // ---- part B: the real scopes (Flame = application, Context = request) ----------------
 
 type flameInjCase struct {
-	App      []injReg `json:"app"`      // Flame.Map*/Set
-	Req      []injReg `json:"request"`  // Context.Map*/Set in the first handler of request 1
-	Params   []string `json:"params"`   // parameters of the later handler
-	Wrapping string   `json:"wrapping"` // plain | context | http | handlerfunc | teapot | logger
+	App      []injReg `json:"app"`                        // Flame.Map*/Set
+	Req      []injReg `json:"request"`                    // Context.Map*/Set in the first handler of request 1
+	Params   []string `json:"params"`                     // parameters of the later handler
+	Wrapping string   `json:"wrapping"`                   // plain | context | http | handlerfunc | teapot | logger
 	Remap    bool     `json:"context_remapped,omitempty"` // an earlier handler re-registers the Context type in the request scope (a decorating wrapper); later handlers must receive the wrapper
 }
 
